@@ -110,16 +110,44 @@ def update_rule(ctx, rs):
                 w = next((e for e in r.events if e["kind"] in ("grad_write", "aggregator_call")), None)
                 ctx.violated("R4", name, f"this chunked path aggregates/stores {diff[:2] or sg[:2]}, which no path of {plain.label} does: the update depends on the chunk size",
                              w["loc"] if w else "")
-    ctx.floor("chunked paths compared with the un-chunked call", n, 4)
+    ctx.floor("chunked paths compared with the un-chunked call", n, 2)
 
 
 def partition_rule(ctx, P, rs, RULE):
     """Row blocks of the cotangents partition [0, m) in order (shared by C01 / C02 / C07 / C15)."""
     defs = P.ops.sym_defs
     n_part = 0
+    from . import _inst
+
+    extra = [0]
+
+    outer_ctx = ctx
+
+    class _Fallback:
+        """ctx.undecided of this rule first asks the instance runs (sizes concrete, tensors abstract)."""
+
+        def __init__(self, run):
+            self.run = run
+
+        def undecided(self, rule, key, why, loc, **kw):
+            st, text, der = _inst.verdict(P.index, self.run.entry, "partition", chunk=bool(self.run.variant.get("chunk")))
+            k2 = f"{self.run.label}: row blocks"
+            if st == "ok":
+                extra[0] += 1
+                outer_ctx.ok(rule, k2, text + f" [symbolic reading failed: {why}]", loc, derivation=der)
+            elif st == "violated":
+                extra[0] += 1
+                outer_ctx.violated(rule, k2, text, loc, derivation=der)
+            else:
+                outer_ctx.undecided(rule, key, why + "; " + text, loc)
+
+        def __getattr__(self, name):
+            return getattr(outer_ctx, name)
+
     for run in rs:
+        ctx = _Fallback(run)
         rows_atom = "tensors" if run.entry == "backward" else "features"
-        cand = [r for r in _pipe.main_paths(run) if not _pipe.blocking(r) and any(e["axis"] == 0 and "_differentiate" in e["function"] for e in _pipe.evs(r, "unpack"))]
+        cand = [r for r in _pipe.main_paths(run) if not _pipe.blocking(r) and any(e["axis"] == 0 and _pipe.in_stage(e) for e in _pipe.evs(r, "unpack"))]
         if not cand and _pipe.main_paths(run):
             # no slicing at all: fine when every path differentiates the whole stack of cotangents in a single sweep (one block)
             single = True
@@ -138,9 +166,9 @@ def partition_rule(ctx, P, rs, RULE):
             else:
                 ctx.undecided(RULE, run.label, "no path slices the rows of the cotangents", "")
         for res in cand[:1]:
-            sl = [e for e in _pipe.evs(res, "unpack") if e["axis"] == 0 and e["layout_how"] in (None, "stack", "vstack") and "_differentiate" in e["function"]]
+            sl = [e for e in _pipe.evs(res, "unpack") if e["axis"] == 0 and e["layout_how"] in (None, "stack", "vstack") and _pipe.in_stage(e)]
             slice_syms = {sy for e in sl for pl in (e.get("lo_poly"), e.get("hi_poly")) if pl is not None for sy in pl.symbols()}
-            rng = [e for e in _pipe.evs(res, "range") if "_differentiate" in e["function"] or e["var"] in slice_syms]  # incl. ranges of helper generators
+            rng = [e for e in _pipe.evs(res, "range") if _pipe.in_stage(e) or e["var"] in slice_syms]  # incl. ranges of helper generators
             if not sl:
                 ctx.undecided(RULE, run.label, "no row slicing of the cotangents found", "")
                 continue
@@ -256,7 +284,7 @@ def partition_rule(ctx, P, rs, RULE):
             else:
                 ctx.ok(RULE, key, f"index expressions evaluated exhaustively on {n_eval} (m, k) pairs (m ≤ 12): ordered partition, non-empty, ≤ k rows, ceil(m/k) blocks"
                        + ("" if run.variant["chunk"] else " [chunk size None: one block]"), fi_loc, derivation={"bounded": True, "pairs": n_eval})
-    return n_part
+    return n_part + extra[0]
 
 
 def calls_in(node, pred):
